@@ -137,6 +137,17 @@ type tbInst struct {
 	snap    kvdb.Snapshot
 	snapT   int
 	clog    *compactLog
+	stats   *Stats
+}
+
+// nestedNoncommuting: table 2 was created by tables[0].NewTable(own) and parent+own != own+parent
+func (in *tbInst) nestedNoncommuting() bool {
+	if !in.cfg.Nested {
+		return false
+	}
+	p1, p2 := in.cfg.P1, in.cfg.P2
+	own := p2[len(p1):]
+	return p1+own != own+p1
 }
 
 func (in *tbInst) Close() {
@@ -270,6 +281,9 @@ func (in *tbInst) Apply(act map[string]interface{}) (map[string]interface{}, err
 	case "tsnap":
 		in.snap, err = in.tables[t-1].GetSnapshot()
 		in.snapT = t
+		if in.cfg.Nested && t == 2 {
+			in.stats.NestedSnapActions++
+		}
 	case "trelease":
 		in.snap.Release()
 		in.snap = nil
@@ -314,7 +328,20 @@ func dedup(s replay.Set) replay.Set {
 func (in *tbInst) Project() interface{} {
 	var snap interface{} = map[string]interface{}{"live": false}
 	if in.snap != nil {
-		snap = map[string]interface{}{"live": true, "t": in.snapT, "view": readerObs(in.snap, in.env.Conf)}
+		view := readerObs(in.snap, in.env.Conf)
+		snap = map[string]interface{}{"live": true, "t": in.snapT, "view": view}
+		if in.cfg.Nested && in.snapT == 2 { // coverage bookkeeping only
+			in.stats.NestedSnapReads++
+			if in.nestedNoncommuting() {
+				in.stats.NestedNoncommSnapReads++
+				for _, h := range view["has"].([]interface{}) {
+					if b, ok := h.(bool); ok && b {
+						in.stats.NestedNoncommSnapReadsNonEmpty++
+						break
+					}
+				}
+			}
+		}
 	}
 	return map[string]interface{}{
 		"raw":    allPairs(in.inner),
@@ -328,6 +355,7 @@ func TableAdapter(env *Env, kind, backend string) (replay.Adapter, func() interf
 	name := kind + ":" + backend
 	raw := env.newRaw(backend, name)
 	clog := &compactLog{seen: map[string]*CompactObs{}}
+	stats := env.newStats(name)
 	extra := func() interface{} {
 		out := []*CompactObs{}
 		for _, k := range clog.keys {
@@ -340,7 +368,7 @@ func TableAdapter(env *Env, kind, backend string) (replay.Adapter, func() interf
 		if err != nil {
 			return nil, err
 		}
-		in := &tbInst{env: env, backend: backend, inner: db, rec: &recorder{Store: db}, clog: clog}
+		in := &tbInst{env: env, backend: backend, inner: db, rec: &recorder{Store: db}, clog: clog, stats: stats}
 		st := obj(pre)
 		if err := in.setup(num(st["cfg"])); err != nil {
 			return nil, err
